@@ -312,6 +312,16 @@ pub(crate) fn family(name: &str) -> Vec<TxT> {
             tx("bundle-lock-br1-4-then-br2-6", &CAROL, vec![lock(&BR1, 4), lock(&BR2, 6)]),
             tx("lock-other-asset-br1", &CAROL, vec![lock_asset(&BR1, 2, other_asset())]),
             tx("lock-to-plain-account", &CAROL, vec![lock(&DAVE, 2)]),
+            // locked asset and fee asset named with different lengths (the variable fee component is
+            // the size of the deposit, which names the locked asset)
+            tx("lock-9-br1-fee-in-ibc-form", &CAROL, vec![Action::BridgeLock(BridgeLock {
+                to: addr(&BR1),
+                amount: 9,
+                asset: nria().into(),
+                fee_asset: nria().to_ibc_prefixed().into(),
+                destination_chain_address: "rollup-dest".into(),
+            })]),
+            tx("lock-8-br1-asset-in-ibc-form", &CAROL, vec![lock_asset(&BR1, 8, nria().to_ibc_prefixed().into())]),
         ],
         // validator updates on a chain that has not reached Aspen (legacy validator-set storage)
         "validators-pre-aspen" => vec![
